@@ -4,7 +4,7 @@ from common import log
 
 ATOM = {
     "t_empty": "", "t_a": "a", "t_quote": 'q"q', "t_bslash": "b\\s", "t_lf": "l\nf", "t_ctl": "c\x01", "t_emoji": "\U0001F600",
-    "t_script": "</script>", "t_ls": " ", "t_kctl": "k\x01\x0b\x7f\\\U000E0001\x1f",
+    "t_script": "</script>", "t_ls": " ", "t_uesc": "C:\\u003cdir\\u0026x\\u0041&<>", "t_nesc": "r\\n\\\"s\\\\t\\", "t_kctl": "k\x01\x0b\x7f\\\U000E0001\x1f",
     "n_0": 0.0, "n_m1": -1.0, "n_1p5": 1.5, "n_1e21": 1e21, "n_2p53": 9007199254740992.0,
     "true": True, "false": False, "null": None,
 }
